@@ -299,7 +299,7 @@ class SelectorPattern:
         self.name = name
         self.re_pattern = re.compile(pattern, re.I | re.X | re.U)
 
-    def get_name(self) -> str:
+    def get_name(self, m: Match[str] | None = None) -> str:
         """Get name."""
 
         return self.name
@@ -326,9 +326,13 @@ class SpecialPseudoPattern(SelectorPattern):
         self.matched_name = None  # type: SelectorPattern | None
         self.re_pseudo_name = re.compile(PAT_PSEUDO_CLASS_SPECIAL, re.I | re.X | re.U)
 
-    def get_name(self) -> str:
+    def get_name(self, m: Match[str] | None = None) -> str:
         """Get name."""
 
+        if m is not None:
+            # Derive the name from the match itself: `matched_name` is shared between threads.
+            pattern = self.patterns.get(util.lower(css_unescape(m.group('name'))))
+            return '' if pattern is None else pattern.get_name()
         return '' if self.matched_name is None else self.matched_name.get_name()
 
     def match(self, selector: str, index: int, flags: int) -> Match[str] | None:
@@ -1112,7 +1116,7 @@ class CSSParser:
             for v in self.css_tokens:
                 m = v.match(pattern, index, self.flags)
                 if m:
-                    name = v.get_name()
+                    name = v.get_name(m)
                     if self.debug:  # pragma: no cover
                         print(f"TOKEN: '{name}' --> {m.group(0)!r} at position {m.start(0)}")
                     index = m.end(0)
